@@ -10,7 +10,7 @@ import time
 import z3
 
 from . import e2, gram, larkgen
-from .common import (EXIT_INCONCLUSIVE, EXIT_OK, EXIT_VIOLATION, REPO, Timer, log, match_known, save_replay, seed, tier, write_evidence)
+from .common import (EXIT_INCONCLUSIVE, EXIT_OK, EXIT_VIOLATION, REPO, Timer, log, match_known, save_replay, seed, settle, tier, write_evidence)
 
 HAND = [
     "start: a b\na: \"x\" | a \"y\"\nb: /[0-9]+/ | \"\"\n",
@@ -37,7 +37,7 @@ def parametric_cases(rng, n):
     for i in range(n):
         k = rng.randint(0, 3)
         c = rng.choice(conds) % k
-        form = rng.randint(0, 5)
+        form = rng.randint(0, 7)
         if form == 0:
             g = 'start: item::0\nitem::_: "a" item::incr([0:3]) | tail::_\ntail::_: "!" %%if %s\n' % c
         elif form == 1:
@@ -50,6 +50,13 @@ def parametric_cases(rng, n):
             g = "start    :  perm::0x0\nperm::_  :  " + "\n         |  ".join(alts) + "\n"
         elif form == 4:
             g = 'start: a::%d\na::_: "x" b::_ | "y"\nb::_: c::decr(_) %%if %s\nc::_: "z" a::_ | "w"\n' % (rng.randint(0, 3), c)
+        elif form == 6:
+            # a rule whose whole body is one reference that transforms the parameter: not an alias
+            tf = rng.choice(["incr([0:2])", "incr([0:3])", "decr([0:2])", "set_bit(1)", "bit_or(2)", "bit_and(5)"])
+            g = 'start: loop::%d\nloop::_ : body::%s\nbody::_ : "a" loop::_\n        | "c" loop::_\n        | "b"   %%if %s\n' % (rng.randint(0, 3), tf, c)
+        elif form == 7:
+            tf = rng.choice(["incr([0:2])", "set_bit(0)", "bit_or(4)", "decr([0:3])"])
+            g = 'start: "d" w::%d\nw::_ : v::%s\nv::_ : "a" w::_ "e" | "b" %%if %s\n' % (rng.randint(0, 5), tf, c)
         else:
             g = 'start: cnt::0 "."\ncnt::_: "a" cnt::incr([0:2]) | done::_\ndone::_: "" %%if %s\n' % c
         out.append(dict(kind="lark", text=g, origin="parametric"))
@@ -57,6 +64,8 @@ def parametric_cases(rng, n):
 
 
 PARAM_HAND = [
+    'start: loop::0\nloop::_ : body::incr([0:3])\nbody::_ : "a" loop::_ | "c" loop::_ | "b" %if ge(_, 3)\n',
+    'start: "d" w::1\nw::_ : v::set_bit(1)\nv::_ : "a" w::_ "e" | "b" %if bit_set(1)\n',
     'start: p::0 "X"\np::_: "a" %if bit_set(0) | p::set_bit(0) %if bit_clear(0)\n',
     'start: p::0\np::_: "." | "a" q::_\nq::_: "b" p::incr([0:2])\n',
     'start    :  perm::0x0\nperm::_  :  ""                       %if is_ones([0:3])\n         |  "a" perm::set_bit(0)     %if bit_clear(0)\n         |  "b" perm::set_bit(1)     %if bit_clear(1)\n         |  "c" perm::set_bit(2)     %if bit_clear(2)\n',
@@ -300,8 +309,7 @@ def run():
     write_evidence(prop, "translation_validation", cov, tm.s(), reported, assumptions)
     if reported:
         return EXIT_VIOLATION
-    if inconclusive:
-        print("INCONCLUSIVE property=%s: %s" % (prop, inconclusive[0][:300]))
+    if settle(prop, inconclusive, len(cases)):
         return EXIT_INCONCLUSIVE
     print("OK property=%s tier=%s cases=%d decided=%d changed=%d queries=%d (%.0fs)" % (prop, tr, len(cases), stats["decided"], stats["changed"], stats["queries"], tm.s()))
     return EXIT_OK
